@@ -1,0 +1,215 @@
+//go:build verif
+
+package lucene
+
+import (
+	"github.com/grindlemire/go-lucene/internal/lex"
+	"github.com/grindlemire/go-lucene/internal/verifspec"
+	"github.com/grindlemire/go-lucene/pkg/lucene/expr"
+	"github.com/grindlemire/go-lucene/pkg/lucene/reduce"
+	"strings"
+)
+
+// Contracts of the shift-reduce parser (properties C01, C05, C06, C07, C10, C11, C16).
+
+// ---- the documented precedence table ---------------------------------------------------------
+
+// Binds: binding strength of an operator token, from the documented table
+// OR < AND < NOT < ^ < ~ < - < +   with the field operators  : < > =  above all of them.
+func Binds(t lex.TokType) int {
+	switch t {
+	case lex.TOr:
+		return 1
+	case lex.TAnd:
+		return 2
+	case lex.TNot:
+		return 3
+	case lex.TCarrot:
+		return 4
+	case lex.TTilde:
+		return 5
+	case lex.TMinus:
+		return 6
+	case lex.TPlus:
+		return 7
+	case lex.TColon:
+		return 8
+	case lex.TLess:
+		return 9
+	case lex.TGreater:
+		return 10
+	case lex.TEqual:
+		return 11
+	}
+	return 0
+}
+
+// IsOp: t is one of the operator tokens of the table.
+func IsOp(t lex.TokType) bool { return Binds(t) > 0 }
+
+// Term: the token is a term (never matched by a rule, always shifted).
+func IsTermTok(t lex.TokType) bool { return t == lex.TLiteral || t == lex.TQuoted || t == lex.TRegexp }
+
+func openBr(t lex.TokType) bool  { return t == lex.TLParen || t == lex.TLSquare || t == lex.TLCurly }
+func closeBr(t lex.TokType) bool { return t == lex.TRParen || t == lex.TRSquare || t == lex.TRCurly }
+
+// NonTerm: token types that live on the non-terminal stack (operators, brackets,
+// TO and the start marker); terms, errors and end-of-input never do.
+func NonTerm(t lex.TokType) bool {
+	return IsOp(t) || openBr(t) || closeBr(t) || t == lex.TTO || t == lex.TStart
+}
+
+// NTsOK: every entry of the non-terminal stack is such a token.
+func NTsOK(nt []lex.Token) bool {
+	return verifspec.Forall(0, len(nt), func(i int) bool { return NonTerm(nt[i].Typ) })
+}
+
+// ShiftSpec: the shift/reduce decision table.  Never on end-of-input or a lexical
+// error; always a term; always into or right after an opening bracket; always the
+// closing bracket of a range; never past a closing bracket; otherwise shift exactly
+// when the incoming operator binds tighter than the pending one (ties reduce:
+// binary operators are left-associative); the start marker and TO are weaker than
+// every operator, and operators reduce before a closing parenthesis or TO.
+func ShiftSpec(cur, next lex.TokType) bool {
+	if next == lex.TEOF || next == lex.TErr {
+		return false
+	}
+	if IsTermTok(next) {
+		return true
+	}
+	if openBr(cur) || openBr(next) {
+		return true
+	}
+	if next == lex.TRSquare || next == lex.TRCurly {
+		return true
+	}
+	if closeBr(cur) {
+		return false
+	}
+	if IsOp(cur) && IsOp(next) {
+		return Binds(next) > Binds(cur)
+	}
+	if IsOp(cur) { // next is ) or TO
+		return false
+	}
+	// cur is the start marker or TO
+	if IsOp(next) {
+		return true
+	}
+	return lex.HasLessPrecedence(lex.Token{Typ: cur}, lex.Token{Typ: next})
+}
+
+// ---- parser invariant ------------------------------------------------------------------------
+
+// PInv: the lexer is in a public state; every stack element is a token or a
+// non-nil expression of parser shape; the non-terminal stack holds the start
+// marker plus exactly one entry per token on the stack.
+func PInv(p *parser) bool {
+	return p.lex != nil && lex.LexPub(p.lex) && reduce.ElemsOK(p.stack) && NTsOK(p.nonTerminals) &&
+		len(p.nonTerminals) >= 1 && len(p.nonTerminals) == 1+reduce.NTok(p.stack, len(p.stack))
+}
+
+//@ func (*parser).shouldAccept
+//@   inline
+
+//@ func (*parser).shift
+//@   inline
+
+// lemmaPrecedenceTable: the token constants realise the documented table - for two
+// operator tokens the pending one has "less precedence" exactly when the incoming
+// one binds strictly tighter (so equal operators reduce first: left-associative).
+
+//@ func lemmaPrecedenceTable
+//@   lemma
+//@   props C05 C07
+//@   requires IsOp(a) && IsOp(b)
+//@   ensures  lex.HasLessPrecedence(lex.Token{Typ: a}, lex.Token{Typ: b}) == (Binds(b) > Binds(a))
+
+func lemmaPrecedenceTable(a, b lex.TokType) {}
+
+// lemmaStructuralTokens: the start marker and TO are weaker than every operator;
+// operators reduce before a closing parenthesis or TO.
+
+//@ func lemmaStructuralTokens
+//@   lemma
+//@   props C05
+//@   requires IsOp(op)
+//@   ensures  lex.HasLessPrecedence(lex.Token{Typ: lex.TStart}, lex.Token{Typ: op}) && lex.HasLessPrecedence(lex.Token{Typ: lex.TTO}, lex.Token{Typ: op})
+//@   ensures  !lex.HasLessPrecedence(lex.Token{Typ: op}, lex.Token{Typ: lex.TRParen}) && !lex.HasLessPrecedence(lex.Token{Typ: op}, lex.Token{Typ: lex.TTO})
+
+func lemmaStructuralTokens(op lex.TokType) {}
+
+//@ func (*parser).shouldShift
+//@   props C05 C07 C16 C01
+//@   pure
+//@   requires len(p.nonTerminals) >= 1 && NonTerm(p.nonTerminals[len(p.nonTerminals)-1].Typ) && lex.KnownTyp(next.Typ) && next.Typ != lex.TStart
+//@   ensures  result == ShiftSpec(p.nonTerminals[len(p.nonTerminals)-1].Typ, next.Typ)
+//@   lemma table before "return lex.HasLessPrecedence(curr, next)": if IsOp(curr.Typ) && IsOp(next.Typ) { lemmaPrecedenceTable(curr.Typ, next.Typ) }; if IsOp(curr.Typ) { lemmaStructuralTokens(curr.Typ) }; if IsOp(next.Typ) { lemmaStructuralTokens(next.Typ) }
+
+// ---- literals --------------------------------------------------------------------------------------
+
+//@ func parseLiteral
+//@   props C06 C08 C10 C01
+//@   requires token.Typ == lex.TLiteral || token.Typ == lex.TQuoted || token.Typ == lex.TRegexp || token.Typ == lex.TErr || token.Typ == lex.TEOF
+//@   ensures  err == nil
+//@   ensures  reduce.IsE(e) && expr.ParserLeaf(reduce.E(e))
+//@   ensures[quoted-is-string] token.Typ == lex.TQuoted ==> reduce.E(e).Op == expr.Literal && reduce.E(e).Left == any(strings.ReplaceAll(token.Val, "\"", ""))
+//@   ensures[regexp] token.Typ == lex.TRegexp ==> reduce.E(e).Op == expr.Regexp && reduce.E(e).Left == any(token.Val)
+
+// ---- reduce: pop the shortest stack suffix on which a rule fires --------------------------------
+
+// RInv: invariant of the suffix loop in reduce(); top is the popped suffix in order.
+func RInv(p *parser, top []any) bool {
+	return p.lex != nil && lex.LexPub(p.lex) && reduce.ElemsOK(p.stack) && reduce.ElemsOK(top) && NTsOK(p.nonTerminals) &&
+		len(p.nonTerminals) >= 1 &&
+		len(p.nonTerminals) == 1+reduce.NTok(p.stack, len(p.stack))+reduce.NTok(top, len(top))
+}
+
+//@ func (*parser).reduce
+//@   props C01 C06 C10
+//@   fuel 2 NTok=3
+//@   requires PInv(p)
+//@   ensures  p.lex == old(p.lex) && p.defaultField == old(p.defaultField)
+//@   ensures  err == nil ==> PInv(p) && len(p.stack) < len(old(p.stack))
+//@   loop 0: invariant RInv(p, top) && p.lex == old(p.lex) && p.defaultField == old(p.defaultField)
+//@   loop 0: invariant len(p.stack)+len(top) <= len(old(p.stack))
+//@   loop 0: decreases len(p.stack)
+//@   lemma pop before "p.stack = p.stack[:len(p.stack)-1]": reduce.LemmaNTokPrefix(p.stack[:len(p.stack)-1], p.stack, len(p.stack)-1)
+//@   lemma prepend before "top = append([]any{s}, top...)": reduce.LemmaNTokConcat(append([]any{s}, top...), []any{s}, top, len(top)); reduce.LemmaNTokBounds(p.stack, len(p.stack))
+//@   lemma push before "p.stack = append(p.stack, top...)": reduce.LemmaNTokConcat(append(p.stack, top...), p.stack, top, len(top))
+
+// ---- parse ----------------------------------------------------------------------------------------
+
+//@ func (*parser).parse
+//@   props C01 C05 C06 C07 C10 C16
+//@   fuel 2 NTok=3 ShapeP=1
+//@   requires PInv(p)
+//@   ensures  err == nil ==> e != nil && expr.ShapeP(e)
+//@   ensures  err != nil ==> e == nil
+//@   ensures[accept-only-at-end] err == nil ==> lex.NextOf(*p.lex).Typ == lex.TEOF
+//@   loop 0: invariant[lexer]  p.lex != nil && lex.LexPub(p.lex) && p.defaultField == old(p.defaultField)
+//@   loop 0: invariant[elems]  reduce.ElemsOK(p.stack)
+//@   loop 0: invariant[nts]    NTsOK(p.nonTerminals)
+//@   loop 0: invariant[tokens] len(p.nonTerminals) >= 1 && len(p.nonTerminals) == 1+reduce.NTok(p.stack, len(p.stack))
+//@   loop 0: decreases 3*lex.Remaining(p.lex) + len(p.stack)
+//@   lemma leaf before "if final.Op == expr.Literal": expr.LemmaParsedLeaf(final)
+//@   lemma scoped before "final = expr.Expr(p.defaultField, expr.Equals, final.Left)": expr.LemmaDefaultFieldTerm(p.defaultField, final.Left)
+//@   lemma pushand before "p.stack = append(p.stack, implAnd)": reduce.LemmaNTokPrefix(append(p.stack, implAnd), p.stack, len(p.stack))
+//@   lemma pushlit before "p.stack = append(p.stack, lit)": reduce.LemmaNTokPrefix(append(p.stack, lit), p.stack, len(p.stack)); expr.LemmaLeafParsed(reduce.E(lit))
+//@   lemma pushtok before "p.stack = append(p.stack, tok)": reduce.LemmaNTokPrefix(append(p.stack, tok), p.stack, len(p.stack))
+//@   assert implicit-and-shiftable before "p.stack = append(p.stack, implAnd)": p.shouldShift(implAnd)
+
+//@ func Parse
+//@   props C10 C01
+//@   requires verifspec.Forall(0, len(opts), func(i int) bool { return opts[i] != nil })
+//@   ensures  (err == nil) != (e == nil)
+//@   ensures  err == nil ==> expr.ShapeV(e) && expr.ShapeP(e)
+//@   loop 0: rangeinv PInv(p)
+
+// imports used by the directive comments only
+var (
+	_ = strings.ReplaceAll
+	_ = verifspec.B2I
+	_ = expr.LeafOp
+	_ = reduce.IsTok
+)
